@@ -71,6 +71,7 @@ func main() {
 	runFull()
 	runOver()
 	runEuclidShapes()
+	runCosetErrors()
 	runDMValues()
 	runQRValues()
 	runTwinBlocks()
